@@ -694,6 +694,10 @@ class MarkdownNormalizer(Renderer):
         return text
 
     def render_line_break(self, element: inline.LineBreak) -> str:
+        if not element.soft:
+            # What follows a hard break starts a line, like the start of the paragraph
+            # (an escaped `1\.` there must keep its escape).
+            self._current_inline_text = ""
         return "\n" if element.soft else "\\\n"
 
     def render_code_span(self, element: inline.CodeSpan) -> str:
